@@ -191,7 +191,7 @@ func c16Specs(tier string) ([]*Spec, error) {
 			cfg := Cfg{Fast: fast}
 			a := Alpha{Writes: true, Save: true, DelTo: true, LVFO: true, Reopen: []reopenVar{{0, fast, 0}}, MaxVersions: base.Latest + 3}
 			s := &Spec{Weight: 1, ID: "C16", Name: fmt.Sprintf("%dv/fast=%v/legacy#%d", len(f.Versions), fast, f.ID), Cfg: cfg, Keys: keys, Vals: bs("z"), MaxDepth: depth, MaxMaint: 3,
-				Alphabet: a.Ops, Oracles: []Oracle{oracleLegacyOpen(f), oracleReads(probes), oracleHashes(), oracleFresh(oracleReads(probes), oracleHashes())}, Workers: 0}
+				Alphabet: a.Ops, Oracles: []Oracle{oracleLegacyOpen(f), oracleReads(probes), oracleHashes(), oracleVersionsLive([]byte("a")), oracleFresh(oracleReads(probes), oracleHashes())}, Workers: 0}
 			s.Init = c16Init(f, base, kvs)
 			s.BaseModel = base
 			s.Label = f.String()
@@ -254,7 +254,7 @@ func init() {
 		r.Extra["legacy_generator"] = "github.com/cosmos/iavl v0.20.0 on cometbft-db v0.7.0 MemDB (/verif/legacygen); every fixture's hashes and contents as reported by the legacy library are cross-checked against the reference tree before use"
 		r.Assumptions = []string{
 			"legacy histories: 1 version x <= 2 writes, 2 versions x <= 1 write (thorough: first version <= 2 writes), 3 versions x <= 1 write, each with every subset of legacy-side DeleteVersion of non-latest versions, written with the legacy fast index on and off",
-			"unavailability of pruned legacy versions is not asserted (legacy versions are pruned in bulk: DeleteVersionsTo(n) below the legacy latest version deletes nothing); every version that must remain is checked for contents and hash, live and after restart",
+			"legacy versions are pruned in bulk: DeleteVersionsTo(n) below the legacy latest version deletes nothing (the model keeps them); every version that must remain is checked for contents and hash, live and after restart, and the version bookkeeping of the live instance (AvailableVersions, VersionExists, GetImmutable, GetVersioned for every version number) must equal the model's retained range",
 		}
 		return r
 	}
